@@ -20,11 +20,12 @@ def reset():
 
 
 def set_size(size: int):
-    for cached in _cached:
-        wrapped = cached.__wrapped__
-        setattr(
-            sys.modules[wrapped.__module__], wrapped.__name__, lru_cache(size)(wrapped)
-        )
+    for wrapped in list({cached.__wrapped__: None for cached in _cached}):
+        resized = lru_cache(size)(wrapped)
+        setattr(sys.modules[wrapped.__module__], wrapped.__name__, resized)
+        # reset() must clear the new cache too (the previous one may still be
+        # referenced by modules which imported the function by name)
+        _cached.append(resized)
 
 
 K = TypeVar("K")
